@@ -219,6 +219,12 @@ class QueryParser(object):
                     e = sys.exc_info()[1]
                     return query.error_query(e)
 
+            if not field.format:
+                # There is nothing to search in an unindexed (e.g. STORED)
+                # field
+                return query.error_query("Field %r is not indexed"
+                                         % fieldname)
+
             # Otherwise, ask the field to process the text into a list of
             # tokenized strings
             texts = list(field.process_text(text, mode="query",
